@@ -47,11 +47,18 @@ def stamping_rule(prog, run, rid):
     for f, realloc in ((am, False), (rm, True)):
         bad, got_all = {}, {}
         seq_ok, guard_ok, added_ok = True, True, True
+        from .shared import detector_state, detector_reads
+        per_ = {e["name"]: e["v"] for en in prog.enums.values() for e in en["enumerators"] if e["name"].startswith("mem_leak_period_")}
+        # two detectors that differ in every component, built by the detector's own constructor and public operations
+        WORLDS = (((9000, 24, 111000, 77), [("startChecking", []), ("increaseAllocationStage", []), ("increaseAllocationStage", [])], per_["mem_leak_period_checking"]),
+                  ((9500, 1, 222000, 5), [("enable", []), ("increaseAllocationStage", [])], per_["mem_leak_period_enabled"]))
         for sep in (0, 1):
-            for (alloc, size, file_, line), seqno, period, stage in (((9000, 24, 111000, 77), 41, 3, 7), ((9500, 1, 222000, 5), 1000, 1, 2)):
+            for (alloc, size, file_, line), steps_, period in WORLDS:
+                st0 = detector_state(prog, steps_)
+                seqno, stage = detector_reads(prog, st0)
                 pn = [q["name"] for q in f.params]
-                env = dict(zip(pn, (alloc, OLD, size, file_, line, sep) if realloc else (alloc, size, file_, line, sep)))
-                env.update({"allocationSequenceNumber_": seqno, "current_period_": period, "current_allocation_stage_": stage})
+                env = dict(st0)
+                env.update(dict(zip(pn, (alloc, OLD, size, file_, line, sep) if realloc else (alloc, size, file_, line, sep))))
                 added, guards = [], []
                 ev = Evaluator(prog, f, env=env, calls={
                     "TestMemoryAllocator::alloc_memory": lambda *a_: M, "PlatformSpecificRealloc": lambda *a_: M, "TestMemoryAllocator::allocMemoryLeakNode": lambda *a_: N,
@@ -71,7 +78,8 @@ def stamping_rule(prog, run, rid):
                 want = {"memory_": M, "number_": seqno, "size_": size, "allocator_": alloc, "period_": period, "allocation_stage_": stage, "file_": file_, "line_": line}
                 bad.update({k: (got.get(k), v) for k, v in want.items() if got.get(k) != v})
                 got_all = got
-                seq_ok = seq_ok and ev.env.get("allocationSequenceNumber_") == seqno + 1
+                st1 = {k_: v_ for k_, v_ in ev.env.items() if k_ in st0}
+                seq_ok = seq_ok and detector_reads(prog, st1)[0] == seqno + 1
                 # (the guard writer as a stub, or - when it is no member any more and was inlined - its stores behind the block)
                 direct = sorted(k_ for k_, v_ in ev.stores if re.match(r"^@%d\[\d+\]$" % (M + size), k_))
                 guard_ok = guard_ok and (guards == [M + size] or (not guards and direct == sorted("@%d[%d]" % (M + size, j) for j in range(guard[0]))))
@@ -82,6 +90,25 @@ def stamping_rule(prog, run, rid):
         run.ob(rid, what_ + ": the sequence number advances by one per record", f.site, seq_ok)
         run.ob(rid, what_ + ": the guard bytes are written directly behind the block (memory + size)", f.site, guard_ok)
         run.ob(rid, what_ + ": the stamped record is entered into the table once", f.site, added_ok)
+
+
+def stamp_of(prog, state, sep=0):
+    """the record a detector in `state` writes for one allocation (allocMemory folded over the heap model): its fields"""
+    am = [f for f in prog.fns(DET + "::allocMemory") if len(f.params) == 5][0]
+    DINL = {g.qn for g in prog.functions.values() if g.qn.startswith(DET + "::")} | {"MemoryLeakDetectorNode::init", "calculateVoidPointerAlignedSize"}
+    env = dict(state)
+    env.update(dict(zip([q["name"] for q in am.params], (9000, 24, 111000, 77, sep))))
+    added = []
+    ev = Evaluator(prog, am, env=env, calls={
+        "TestMemoryAllocator::alloc_memory": lambda *a_: 70000, "TestMemoryAllocator::allocMemoryLeakNode": lambda *a_: 90000, "TestMemoryAllocator::free_memory": lambda *a_: 0,
+        TAB + "::addNewNode": lambda *a_: (added.append(a_[-1]), 0)[1], DET + "::addMemoryCorruptionInformation": lambda *a_: 0})
+    ev.heap_mode = True
+    ev.inline = DINL - set(ev.calls)
+    ev.optional_stubs = {DET + "::addMemoryCorruptionInformation"}
+    ev.run_blocks(am.entry, max_steps=3000)
+    if len(added) != 1:
+        raise Unknown("the allocation enters %d records" % len(added))
+    return {k[len("@%s." % added[0]):]: v for k, v in ev.env.items() if k.startswith("@%s." % added[0])}
 
 
 def list_total_rule(prog, run, rid, maxn=4):
